@@ -16,4 +16,4 @@ RULE = ("Cases = (function of the family, argument tuple, precision p). Argument
 ASSUMPTIONS = ["MPFR results are correctly rounded", "where only mpmath 1.3.0 is available as reference, an error shared by the pinned tree and 1.3.0 at every precision is invisible"]
 TECHNIQUE = "property-based testing (Hypothesis) against MPFR and a frozen higher-precision reference implementation"
 
-shards, gen_case, check_case = _special.make_module("C22", 3000, scale_max=6)
+shards, gen_case, check_case = _special.make_module("C22", 4500, scale_max=6)
